@@ -15,6 +15,9 @@ import (
 
 type externalFn func(fr *frame, args []value) value
 
+// useBody is returned by an intrinsic that declines: the function's SSA body runs instead.
+type useBody struct{}
+
 var externals = make(map[string]externalFn)
 
 // noopPkgs: logging packages — every function returns zero values.
@@ -122,30 +125,51 @@ func extBytesEqual(fr *frame, args []value) value {
 	return acc
 }
 
+// extBytesCompare builds the three-way comparison as one term (no fork per byte).
 func extBytesCompare(fr *frame, args []value) value {
 	a, b := seqBytes(args[0]), seqBytes(args[1])
 	in := fr.i
+	ts := in.ts
 	n := len(a)
 	if len(b) < n {
 		n = len(b)
 	}
-	for i := 0; i < n; i++ {
-		if fr.decide(in.byteEq(a[i], b[i])) {
-			continue
-		}
-		lt := fromTermBool(in.ts.Cmp(OpUlt, in.termOf(a[i]), in.termOf(b[i])))
-		if fr.decide(lt) {
-			return -1
-		}
-		return 1
-	}
+	tail := 0
 	switch {
 	case len(a) < len(b):
-		return -1
+		tail = -1
 	case len(a) > len(b):
-		return 1
+		tail = 1
 	}
-	return 0
+	// concrete prefix fast path
+	i := 0
+	for ; i < n; i++ {
+		x, okx := a[i].(uint8)
+		y, oky := b[i].(uint8)
+		if !okx || !oky {
+			break
+		}
+		if x != y {
+			if x < y {
+				return -1
+			}
+			return 1
+		}
+	}
+	if i == n {
+		return tail
+	}
+	acc := ts.Const(64, uint64(int64(tail)))
+	for j := n - 1; j >= i; j-- {
+		x, y := in.termOf(a[j]), in.termOf(b[j])
+		if x == y {
+			continue
+		}
+		lt := ts.Cmp(OpUlt, x, y)
+		gt := ts.Cmp(OpUlt, y, x)
+		acc = ts.Ite(lt, ts.Const(64, ^uint64(0)), ts.Ite(gt, ts.Const(64, 1), acc))
+	}
+	return fromTerm(acc, types.Typ[types.Int])
 }
 
 // extIndex: first index of sep in s (byte sequences), -1 if absent.
@@ -500,8 +524,88 @@ func (fr *frame) errAs(err iface, T types.Type, cell *value, depth int) bool {
 	panic(engineError{"errors.As: unwrap chain too deep"})
 }
 
+// extCIDRMask: net.CIDRMask with a symbolic prefix length builds the mask bytes as terms
+// (no path split per length); concrete arguments run the real code.
+func extCIDRMask(fr *frame, args []value) value {
+	in := fr.i
+	ts := in.ts
+	ot, ok := args[0].(*Term)
+	if !ok {
+		return useBody{}
+	}
+	bits, ok := args[1].(int)
+	if !ok {
+		return useBody{}
+	}
+	if bits != 32 && bits != 128 {
+		return []value(nil)
+	}
+	inRange := ts.Cmp(OpUle, ot, ts.Const(64, uint64(bits))) // negative values are huge unsigned
+	if !fr.decide(fromTermBool(inRange)) {
+		return []value(nil)
+	}
+	l := bits / 8
+	m := make([]value, l)
+	for i := 0; i < l; i++ {
+		// rem = ones - 8*i ; byte = rem>=8 ? 0xff : rem<=0 ? 0 : ^(0xff >> rem)
+		rem := ts.Bin(OpSub, ot, ts.Const(64, uint64(8*i)))
+		ge8 := ts.Cmp(OpSle, ts.Const(64, 8), rem)
+		le0 := ts.Cmp(OpSle, rem, ts.Const(64, 0))
+		sh := ts.Extract(ts.Bin(OpAnd, rem, ts.Const(64, 7)), 7, 0)
+		part := ts.Not(ts.Bin(OpLShr, ts.Const(8, 0xff), sh))
+		b := ts.Ite(ge8, ts.Const(8, 0xff), ts.Ite(le0, ts.Const(8, 0), part))
+		m[i] = byteVal(b)
+	}
+	return m
+}
+
+// extIPMaskSize: (net.IPMask).Size on a mask with symbolic bytes returns the prefix length as
+// a term when the mask is canonical (forks on canonicity; non-canonical => 0,0 as the real code).
+func extIPMaskSize(fr *frame, args []value) value {
+	in := fr.i
+	ts := in.ts
+	m, ok := args[0].([]value)
+	if !ok {
+		return useBody{}
+	}
+	sym := false
+	for _, b := range m {
+		if _, ok := b.(*Term); ok {
+			sym = true
+		}
+	}
+	if !sym {
+		return useBody{}
+	}
+	canon := ts.True
+	total := ts.Const(64, 0)
+	allOnesSoFar := ts.True
+	vals := []uint64{0x00, 0x80, 0xc0, 0xe0, 0xf0, 0xf8, 0xfc, 0xfe, 0xff}
+	for _, bv := range m {
+		b := in.termOf(bv)
+		n := ts.Const(64, 0)
+		valid := ts.False
+		for k, v := range vals {
+			is := ts.Eq(b, ts.Const(8, v))
+			n = ts.Ite(is, ts.Const(64, uint64(k)), n)
+			valid = ts.BOr(valid, is)
+		}
+		// after a byte that is not 0xff every byte must be 0
+		isZero := ts.Eq(b, ts.Const(8, 0))
+		canon = ts.BAnd(canon, ts.BAnd(valid, ts.BOr(allOnesSoFar, isZero)))
+		allOnesSoFar = ts.BAnd(allOnesSoFar, ts.Eq(b, ts.Const(8, 0xff)))
+		total = ts.Bin(OpAdd, total, n)
+	}
+	if !fr.decide(fromTermBool(canon)) {
+		return tuple{0, 0}
+	}
+	return tuple{fromTerm(total, types.Typ[types.Int]), len(m) * 8}
+}
+
 func init() {
 	for k, v := range map[string]externalFn{
+		"net.CIDRMask":                     extCIDRMask,
+		"(net.IPMask).Size":                extIPMaskSize,
 		"internal/bytealg.IndexByte":       extIndexByte,
 		"internal/bytealg.IndexByteString": extIndexByte,
 		"internal/bytealg.LastIndexByte":   extLastIndexByte,
